@@ -19,5 +19,5 @@ PROPS = {
     'C12': ['mpgverif.harness.c12_index'],
     'C04': ['mpgverif.harness.callvariant_loop', 'mpgverif.harness.c12_index', 'mpgverif.harness.kernel_vpd'],
     'C06': ['mpgverif.harness.callvariant_loop', 'mpgverif.harness.c12_index'],
-    'C07': ['mpgverif.harness.callvariant_loop', 'mpgverif.harness.c07_wrapper'],
+    'C07': ['mpgverif.harness.callvariant_loop', 'mpgverif.harness.c07_wrapper', 'mpgverif.harness.c07_parser_loops'],
 }
